@@ -45,5 +45,7 @@ for sid, (prop, needs, by, detected) in T.items():
         "detected": detected,
         "detected_by": by,
     }
+    if sid in ("C13-1", "C13-2"):
+        meta["confirmed_by"] = "as tools/confirm_seed.sh, with the demonstration run under go test -race (it fails with the patch: DATA RACE; passes without)"
     json.dump(meta, open(d + "/meta.json", "w"), indent=1)
 print("meta written for", len([s for s in T if os.path.isdir('/verif/seeded/' + s)]))
